@@ -1,3 +1,538 @@
 import Usual.Common
-/-! Model driver for C10 (stub: not built yet). -/
-def main : IO Unit := IO.println "stub"
+import Usual.C10.Alloc
+import Usual.C10.Tree
+import Usual.C10.Structs
+/-!
+Model driver for C10 (allocation-fault models; line protocol, see FRAMEWORK.md).
+
+A case is `#case`, `fail k1 [k2 …]` (request numbers made to fail, counted from the start of
+the case), op lines `<family> <op> args…`, and `end`.  Every op prints
+
+    <P>:<ret> <abstract contents> live=<blocks allocated right now>
+
+with `P` = `F` when an injected failure fired inside this op and the op reports failure through
+its return channel, `A` when a failure fired and the op still reports success, `S` otherwise.
+`end` prints the number of requests made, the number of injected failures that fired and the
+balance.
+-/
+open Usual Usual.C06 Usual.C10
+
+structure DS where
+  as : AS := {}
+  cb : Option CB := none
+  cbNext : Nat := 1
+  sp : Option SP := none
+  spSlots : List (Nat × Id) := []
+  md : Option MD := none
+  ht : Option HT := none
+  hp : Option HP := none
+  sl : Option SL := none
+  mb : Option MB := none
+  sb : Option SB := none
+  sbSlots : List Nat := []
+  ct : Option CT := none
+  ctSlots : List (Nat × Id × Option Nat) := []     -- slot ↦ block, sub-tree slot
+  ctSubs : List (Nat × Id) := []                   -- sub-tree slot ↦ struct block
+  hm : Option HM := none
+  dg : Option Id := none
+
+def commaSep (l : List String) : String := ",".intercalate l
+
+def valS : Option (List UInt8) → String
+  | none => "N"
+  | some v => toHex v
+
+def parseValS (s : String) : Option (Option (List UInt8)) :=
+  if s == "N" then some none else (parseHex s).map some
+
+def cbDump (t : CB) : String := "[" ++ commaSep (t.entries.map fun e => toHex e.key) ++ "]"
+
+def spDump (p : SP) : String :=
+  s!"total={p.count} [" ++
+    commaSep (p.tree.entries.map fun e => toHex e.key ++ ":" ++ toString ((refOf p.refs e.obj).getD 0)) ++ "]"
+
+def mdDump (d : MD) : String :=
+  "[" ++ commaSep (d.pairs.map fun p => toHex p.1 ++ "=" ++ valS p.2) ++ "]"
+
+def htDump (h : HT) : String :=
+  let items := h.allItems.mergeSort (fun a b => a.1 ≤ b.1)
+  "used=[" ++ commaSep (h.map fun s => toString s.used) ++ "] {" ++
+    commaSep (items.map fun p => s!"{p.1}:{p.2}") ++ "}"
+
+def hpDump (h : HP) : String :=
+  s!"used={h.used} alloc={h.allocated} [" ++
+    commaSep ((h.elems.mergeSort (· ≤ ·)).map toString) ++ "]"
+
+def slDump (l : SL) : String := "[" ++ commaSep (l.values.map valS) ++ "]"
+
+def mbDump (m : MB) : String := s!"alloc={m.allocLen} {toHex m.bytes}"
+
+def sbDump (b : SB) : String := s!"total={b.total} free={b.free}"
+
+def ctDump (t : CT) : String :=
+  s!"items={t.items.length} subs=[" ++ commaSep (t.subs.map fun p => toString p.2.length) ++ "]"
+
+/-- compose an output line -/
+def outLine (d0 d1 : DS) (failed : Bool) (ret dump : String) : String :=
+  let p := if d1.as.fired > d0.as.fired then (if failed then "F:" else "A:") else "S:"
+  let body := if dump.isEmpty then ret else ret ++ " " ++ dump
+  s!"{p}{body} live={d1.as.live.length}"
+
+def nats (ws : List String) : Option (List Nat) := ws.mapM String.toNat?
+
+def parseVals (s : String) : Option (List (Option (List UInt8))) :=
+  if s == "E" then some [] else (s.splitOn ",").mapM parseValS
+
+def step (d : DS) (line : String) : DS × String :=
+  match words line with
+  | ["#case"] => ({}, "#case")
+  | "fail" :: ks =>
+    match nats ks with
+    | none => (d, "bad-op")
+    | some l => ({ d with as := { d.as with fails := l } }, "ok")
+  | ["end"] =>
+    (d, s!"req={d.as.count} fired={d.as.fired} live={d.as.live.length}")
+  | ["nop"] => (d, "nop")
+  -- ------------------------------------------------------------------ cbtree
+  | ["cb", "new"] =>
+    match d.cb with
+    | some _ => (d, "bad-op")
+    | none =>
+      match cbCreateA d.as with
+      | (none, s1) => let d1 := { d with as := s1 }; (d1, outLine d d1 true "null" "")
+      | (some t, s1) => let d1 := { d with as := s1, cb := some t }; (d1, outLine d d1 false "ok" (cbDump t))
+  | ["cb", "ins", hk] =>
+    match d.cb, parseHex hk with
+    | _, none => (d, "bad-op")
+    | none, _ => (d, "skip")
+    | some t, some k =>
+      match cbInsertA t ⟨k, d.cbNext⟩ d.as with
+      | ((ok, t'), s1) =>
+        let d1 := { d with as := s1, cb := some t', cbNext := d.cbNext + 1 }
+        (d1, outLine d d1 (!ok) (if ok then "1" else "0") (cbDump t'))
+  | ["cb", "del", hk] =>
+    match d.cb, parseHex hk with
+    | _, none => (d, "bad-op")
+    | none, _ => (d, "skip")
+    | some t, some k =>
+      match cbDeleteA t k d.as with
+      | ((r, t'), s1) =>
+        let d1 := { d with as := s1, cb := some t' }
+        (d1, outLine d d1 r.isNone (if r.isSome then "1" else "0") (cbDump t'))
+  | ["cb", "get", hk] =>
+    match d.cb, parseHex hk with
+    | _, none => (d, "bad-op")
+    | none, _ => (d, "skip")
+    | some t, some k =>
+      let r := lookup t.eroot k
+      (d, outLine d d r.isNone (if r.isSome then "1" else "0") (cbDump t))
+  | ["cb", "free"] =>
+    match d.cb with
+    | none => (d, "skip")
+    | some t =>
+      let d1 := { d with as := cbDestroyA t d.as, cb := none }
+      (d1, outLine d d1 false "ok" "")
+  -- ----------------------------------------------------------------- strpool
+  | ["sp", "new"] =>
+    match d.sp with
+    | some _ => (d, "bad-op")
+    | none =>
+      match spCreateA d.as with
+      | (none, s1) => let d1 := { d with as := s1 }; (d1, outLine d d1 true "null" "")
+      | (some p, s1) => let d1 := { d with as := s1, sp := some p }; (d1, outLine d d1 false "ok" (spDump p))
+  | ["sp", "get", slot, hk] =>
+    match d.sp, slot.toNat?, parseHex hk with
+    | _, none, _ => (d, "bad-op")
+    | _, _, none => (d, "bad-op")
+    | none, _, _ => (d, "skip")
+    | some p, some sl, some k =>
+      if d.spSlots.any (·.1 == sl) then (d, "bad-op") else
+      match spGetA p k d.as with
+      | ((none, p'), s1) =>
+        let d1 := { d with as := s1, sp := some p' }
+        (d1, outLine d d1 true "null" (spDump p'))
+      | ((some id, p'), s1) =>
+        let d1 := { d with as := s1, sp := some p', spSlots := (sl, id) :: d.spSlots }
+        (d1, outLine d d1 false s!"ref={(refOf p'.refs id).getD 0}" (spDump p'))
+  | ["sp", "dec", slot] =>
+    match d.sp, slot.toNat? with
+    | _, none => (d, "bad-op")
+    | none, _ => (d, "skip")
+    | some p, some sl =>
+      match d.spSlots.find? (·.1 == sl) with
+      | none => (d, "skip")
+      | some (_, id) =>
+        match spDecrefA p id d.as with
+        | ((rel, p'), s1) =>
+          -- the slot is used up; when the string was released every slot holding it is cleared
+          let slots := d.spSlots.filter fun q => q.1 != sl && !(rel && q.2 == id)
+          let d1 := { d with as := s1, sp := some p', spSlots := slots }
+          (d1, outLine d d1 false (if rel then "released" else "kept") (spDump p'))
+  | ["sp", "free"] =>
+    match d.sp with
+    | none => (d, "skip")
+    | some p =>
+      let d1 := { d with as := spFreeA p d.as, sp := none, spSlots := [] }
+      (d1, outLine d d1 false "ok" "")
+  -- ------------------------------------------------------------------- mdict
+  | ["md", "new"] =>
+    match d.md with
+    | some _ => (d, "bad-op")
+    | none =>
+      match mdNewA d.as with
+      | (none, s1) => let d1 := { d with as := s1 }; (d1, outLine d d1 true "null" "")
+      | (some m, s1) => let d1 := { d with as := s1, md := some m }; (d1, outLine d d1 false "ok" (mdDump m))
+  | ["md", "put", hk, hv] =>
+    match d.md, parseHex hk, parseValS hv with
+    | _, none, _ => (d, "bad-op")
+    | _, _, none => (d, "bad-op")
+    | none, _, _ => (d, "skip")
+    | some m, some k, some v =>
+      match mdPutA m k v d.as with
+      | ((ok, m'), s1) =>
+        let d1 := { d with as := s1, md := some m' }
+        (d1, outLine d d1 (!ok) (if ok then "1" else "0") (mdDump m'))
+  | ["md", "del", hk] =>
+    match d.md, parseHex hk with
+    | _, none => (d, "bad-op")
+    | none, _ => (d, "skip")
+    | some m, some k =>
+      match mdDelA m k d.as with
+      | ((ok, m'), s1) =>
+        let d1 := { d with as := s1, md := some m' }
+        (d1, outLine d d1 (!ok) (if ok then "1" else "0") (mdDump m'))
+  | ["md", "url", hs] =>
+    match d.md, parseHex hs with
+    | _, none => (d, "bad-op")
+    | none, _ => (d, "skip")
+    | some m, some str =>
+      match mdUrldecodeA (str.length + 1) m str d.as with
+      | ((ok, m'), s1) =>
+        let d1 := { d with as := s1, md := some m' }
+        (d1, outLine d d1 (!ok) (if ok then "1" else "0") (mdDump m'))
+  | ["md", "free"] =>
+    match d.md with
+    | none => (d, "skip")
+    | some m =>
+      let d1 := { d with as := mdFreeA m d.as, md := none }
+      (d1, outLine d d1 false "ok" "")
+  -- ----------------------------------------------------------------- hashtab
+  | ["ht", "new", sz] =>
+    match d.ht, sz.toNat? with
+    | some _, _ => (d, "bad-op")
+    | _, none => (d, "bad-op")
+    | none, some n =>
+      match htCreateA n d.as with
+      | (none, s1) => let d1 := { d with as := s1 }; (d1, outLine d d1 true "null" "")
+      | (some h, s1) => let d1 := { d with as := s1, ht := some [h] }; (d1, outLine d d1 false "ok" (htDump [h]))
+  | ["ht", "put", ks, vs] =>
+    match d.ht, ks.toNat?, vs.toNat? with
+    | _, none, _ => (d, "bad-op")
+    | _, _, none => (d, "bad-op")
+    | none, _, _ => (d, "skip")
+    | some h, some k, some v =>
+      if v == 0 then (d, "bad-op") else
+      match htPutA h k v d.as with
+      | ((r, h'), s1) =>
+        let d1 := { d with as := s1, ht := some h' }
+        (d1, outLine d d1 r.isNone (match r with | none => "null" | some x => toString x) (htDump h'))
+  | ["ht", "get", ks] =>
+    match d.ht, ks.toNat? with
+    | _, none => (d, "bad-op")
+    | none, _ => (d, "skip")
+    | some h, some k =>
+      let r := h.find k
+      (d, outLine d d r.isNone (match r with | none => "null" | some x => toString x) (htDump h))
+  | ["ht", "del", ks] =>
+    match d.ht, ks.toNat? with
+    | _, none => (d, "bad-op")
+    | none, _ => (d, "skip")
+    | some h, some k =>
+      let h' := htDelete k h
+      let d1 := { d with ht := some h' }
+      (d1, outLine d d1 false "ok" (htDump h'))
+  | ["ht", "copy", sz] =>
+    match d.ht, sz.toNat? with
+    | _, none => (d, "bad-op")
+    | none, _ => (d, "skip")
+    | some h, some n =>
+      match htCopyA h n d.as with
+      | (none, s1) =>
+        let d1 := { d with as := s1 }
+        (d1, outLine d d1 true "null" (htDump h))
+      | (some h2, s1) =>
+        -- the resize idiom: the old chain is destroyed and replaced by the copy
+        let d1 := { d with as := htDestroyA h s1, ht := some h2 }
+        (d1, outLine d d1 false "ok" (htDump h2))
+  | ["ht", "free"] =>
+    match d.ht with
+    | none => (d, "skip")
+    | some h =>
+      let d1 := { d with as := htDestroyA h d.as, ht := none }
+      (d1, outLine d d1 false "ok" "")
+  -- -------------------------------------------------------------------- heap
+  | ["hp", "new"] =>
+    match d.hp with
+    | some _ => (d, "bad-op")
+    | none =>
+      match hpCreateA d.as with
+      | (none, s1) => let d1 := { d with as := s1 }; (d1, outLine d d1 true "null" "")
+      | (some h, s1) => let d1 := { d with as := s1, hp := some h }; (d1, outLine d d1 false "ok" (hpDump h))
+  | ["hp", "push", xs] =>
+    match d.hp, xs.toNat? with
+    | _, none => (d, "bad-op")
+    | none, _ => (d, "skip")
+    | some h, some x =>
+      if x == 0 then (d, "bad-op") else
+      match hpPushA h x d.as with
+      | ((ok, h'), s1) =>
+        let d1 := { d with as := s1, hp := some h' }
+        (d1, outLine d d1 (!ok) (if ok then "1" else "0") (hpDump h'))
+  | ["hp", "reserve", xs] =>
+    match d.hp, xs.toNat? with
+    | _, none => (d, "bad-op")
+    | none, _ => (d, "skip")
+    | some h, some x =>
+      match hpReserveA h x d.as with
+      | ((ok, h'), s1) =>
+        let d1 := { d with as := s1, hp := some h' }
+        (d1, outLine d d1 (!ok) (if ok then "1" else "0") (hpDump h'))
+  | ["hp", "pop"] =>
+    match d.hp with
+    | none => (d, "skip")
+    | some h =>
+      let (r, h') := hpPop h
+      let d1 := { d with hp := some h' }
+      (d1, outLine d d1 r.isNone (match r with | none => "nil" | some x => toString x) (hpDump h'))
+  | ["hp", "free"] =>
+    match d.hp with
+    | none => (d, "skip")
+    | some h =>
+      let d1 := { d with as := hpDestroyA h d.as, hp := none }
+      (d1, outLine d d1 false "ok" "")
+  -- ----------------------------------------------------------------- strlist
+  | ["sl", "new"] =>
+    match d.sl with
+    | some _ => (d, "bad-op")
+    | none =>
+      match slNewA d.as with
+      | (none, s1) => let d1 := { d with as := s1 }; (d1, outLine d d1 true "null" "")
+      | (some l, s1) => let d1 := { d with as := s1, sl := some l }; (d1, outLine d d1 false "ok" (slDump l))
+  | ["sl", "app", hv] =>
+    match d.sl, parseValS hv with
+    | _, none => (d, "bad-op")
+    | none, _ => (d, "skip")
+    | some l, some v =>
+      match slAppendA l v d.as with
+      | ((ok, l'), s1) =>
+        let d1 := { d with as := s1, sl := some l' }
+        (d1, outLine d d1 (!ok) (if ok then "1" else "0") (slDump l'))
+  | ["sl", "pop"] =>
+    match d.sl with
+    | none => (d, "skip")
+    | some l =>
+      match slPopA l d.as with
+      | ((r, l'), s1) =>
+        let d1 := { d with as := s1, sl := some l' }
+        (d1, outLine d d1 r.isNone (match r with | none => "nil" | some v => valS v) (slDump l'))
+  | ["sl", "free"] =>
+    match d.sl with
+    | none => (d, "skip")
+    | some l =>
+      let d1 := { d with as := slFreeA l d.as, sl := none }
+      (d1, outLine d d1 false "ok" "")
+  -- ---------------------------------------------------------- pg_parse_array
+  | ["pg", "parse", _text, vs] =>
+    match parseVals vs with
+    | none => (d, "bad-op")
+    | some vals =>
+      match pgParseA vals d.as with
+      | (none, s1) => let d1 := { d with as := s1 }; (d1, outLine d d1 true "null" "")
+      | (some l, s1) =>
+        -- the caller looks at the list and releases it
+        let d1 := { d with as := slFreeA l s1 }
+        (d1, outLine d d1 false "ok" (slDump l))
+  -- -------------------------------------------------------------------- mbuf
+  | ["mb", "new"] =>
+    match d.mb with
+    | some _ => (d, "bad-op")
+    | none => let d1 := { d with mb := some {} }; (d1, outLine d d1 false "ok" (mbDump {}))
+  | ["mb", "write", hv] =>
+    match d.mb, parseHex hv with
+    | _, none => (d, "bad-op")
+    | none, _ => (d, "skip")
+    | some m, some b =>
+      match mbWriteA m b d.as with
+      | ((ok, m'), s1) =>
+        let d1 := { d with as := s1, mb := some m' }
+        (d1, outLine d d1 (!ok) (if ok then "1" else "0") (mbDump m'))
+  | ["mb", "free"] =>
+    match d.mb with
+    | none => (d, "skip")
+    | some m =>
+      let d1 := { d with as := mbFreeA m d.as, mb := none }
+      (d1, outLine d d1 false "ok" "")
+  -- -------------------------------------------------------------------- slab
+  | ["slb", "new", sz] =>
+    match d.sb, sz.toNat? with
+    | some _, _ => (d, "bad-op")
+    | _, none => (d, "bad-op")
+    | none, some n =>
+      match sbCreateA n d.as with
+      | (none, s1) => let d1 := { d with as := s1 }; (d1, outLine d d1 true "null" "")
+      | (some b, s1) => let d1 := { d with as := s1, sb := some b }; (d1, outLine d d1 false "ok" (sbDump b))
+  | ["slb", "alloc", slot] =>
+    match d.sb, slot.toNat? with
+    | _, none => (d, "bad-op")
+    | none, _ => (d, "skip")
+    | some b, some sl =>
+      if d.sbSlots.contains sl then (d, "bad-op") else
+      match sbAllocA b d.as with
+      | ((ok, b'), s1) =>
+        let d1 := { d with as := s1, sb := some b', sbSlots := if ok then sl :: d.sbSlots else d.sbSlots }
+        (d1, outLine d d1 (!ok) (if ok then "1" else "0") (sbDump b'))
+  | ["slb", "free", slot] =>
+    match d.sb, slot.toNat? with
+    | _, none => (d, "bad-op")
+    | none, _ => (d, "skip")
+    | some b, some sl =>
+      if !d.sbSlots.contains sl then (d, "skip") else
+      let b' := sbFree b
+      let d1 := { d with sb := some b', sbSlots := d.sbSlots.erase sl }
+      (d1, outLine d d1 false "ok" (sbDump b'))
+  | ["slb", "destroy"] =>
+    match d.sb with
+    | none => (d, "skip")
+    | some b =>
+      let d1 := { d with as := sbDestroyA b d.as, sb := none, sbSlots := [] }
+      (d1, outLine d d1 false "ok" "")
+  -- ----------------------------------------------------------------- cx tree
+  | ["ct", "new"] =>
+    match d.ct with
+    | some _ => (d, "bad-op")
+    | none =>
+      match ctNewA d.as with
+      | (none, s1) => let d1 := { d with as := s1 }; (d1, outLine d d1 true "null" "")
+      | (some t, s1) => let d1 := { d with as := s1, ct := some t }; (d1, outLine d d1 false "ok" (ctDump t))
+  | ["ct", "sub", slot] =>
+    match d.ct, slot.toNat? with
+    | _, none => (d, "bad-op")
+    | none, _ => (d, "skip")
+    | some t, some sl =>
+      if d.ctSubs.any (·.1 == sl) then (d, "bad-op") else
+      match ctNewSubA t d.as with
+      | ((none, t'), s1) =>
+        let d1 := { d with as := s1, ct := some t' }
+        (d1, outLine d d1 true "null" (ctDump t'))
+      | ((some b, t'), s1) =>
+        let d1 := { d with as := s1, ct := some t', ctSubs := d.ctSubs ++ [(sl, b)] }
+        (d1, outLine d d1 false "ok" (ctDump t'))
+  | ["ct", "alloc", slot, sub, _len] =>
+    match d.ct, slot.toNat? with
+    | _, none => (d, "bad-op")
+    | none, _ => (d, "skip")
+    | some t, some sl =>
+      if d.ctSlots.any (·.1 == sl) then (d, "bad-op") else
+      let subSlot : Option (Option Nat) := if sub == "T" then some none else sub.toNat?.map some
+      match subSlot with
+      | none => (d, "bad-op")
+      | some ss =>
+        -- resolve the sub-tree; a sub-tree that does not exist makes the op a skip
+        let sid : Option (Option Id) := match ss with
+          | none => some none
+          | some n => (d.ctSubs.find? (·.1 == n)).map fun p => some p.2
+        match sid with
+        | none => (d, "skip")
+        | some sidv =>
+          match ctAllocA t sidv d.as with
+          | ((none, t'), s1) =>
+            let d1 := { d with as := s1, ct := some t' }
+            (d1, outLine d d1 true "null" (ctDump t'))
+          | ((some b, t'), s1) =>
+            let d1 := { d with as := s1, ct := some t', ctSlots := (sl, b, ss) :: d.ctSlots }
+            (d1, outLine d d1 false "ok" (ctDump t'))
+  | ["ct", "realloc", slot, _len] =>
+    match d.ct, slot.toNat? with
+    | _, none => (d, "bad-op")
+    | none, _ => (d, "skip")
+    | some t, some sl =>
+      match d.ctSlots.find? (·.1 == sl) with
+      | none => (d, "skip")
+      | some (_, blk, ss) =>
+        let sidv : Option Id := ss.bind fun n => (d.ctSubs.find? (·.1 == n)).map (·.2)
+        match ctReallocA t sidv blk d.as with
+        | ((none, t'), s1) =>
+          let d1 := { d with as := s1, ct := some t' }
+          (d1, outLine d d1 true "null" (ctDump t'))
+        | ((some b, t'), s1) =>
+          let slots := d.ctSlots.map fun q => if q.1 == sl then (sl, b, ss) else q
+          let d1 := { d with as := s1, ct := some t', ctSlots := slots }
+          (d1, outLine d d1 false "ok" (ctDump t'))
+  | ["ct", "freeb", slot] =>
+    match d.ct, slot.toNat? with
+    | _, none => (d, "bad-op")
+    | none, _ => (d, "skip")
+    | some t, some sl =>
+      match d.ctSlots.find? (·.1 == sl) with
+      | none => (d, "skip")
+      | some (_, blk, ss) =>
+        let sidv : Option Id := ss.bind fun n => (d.ctSubs.find? (·.1 == n)).map (·.2)
+        let (t', s1) := ctFreeA t sidv blk d.as
+        let d1 := { d with as := s1, ct := some t', ctSlots := d.ctSlots.filter (·.1 != sl) }
+        (d1, outLine d d1 false "ok" (ctDump t'))
+  | ["ct", "dsub", slot] =>
+    match d.ct, slot.toNat? with
+    | _, none => (d, "bad-op")
+    | none, _ => (d, "skip")
+    | some t, some sl =>
+      match d.ctSubs.find? (·.1 == sl) with
+      | none => (d, "skip")
+      | some (_, sid) =>
+        let (t', s1) := ctDestroySubA t sid d.as
+        let d1 := { d with as := s1, ct := some t', ctSubs := d.ctSubs.filter (·.1 != sl),
+                           ctSlots := d.ctSlots.filter (·.2.2 != some sl) }
+        (d1, outLine d d1 false "ok" (ctDump t'))
+  | ["ct", "free"] =>
+    match d.ct with
+    | none => (d, "skip")
+    | some t =>
+      let d1 := { d with as := ctDestroyA t d.as, ct := none, ctSlots := [], ctSubs := [] }
+      (d1, outLine d d1 false "ok" "")
+  -- ------------------------------------------------------------ digest / HMAC
+  | ["dg", "new", _name] =>
+    match d.dg with
+    | some _ => (d, "bad-op")
+    | none =>
+      match dgNewA d.as with
+      | (none, s1) => let d1 := { d with as := s1 }; (d1, outLine d d1 true "null" "")
+      | (some b, s1) => let d1 := { d with as := s1, dg := some b }; (d1, outLine d d1 false "ok" "")
+  | ["dg", "run", _data] =>
+    match d.dg with
+    | none => (d, "skip")
+    | some _ => (d, outLine d d false "ok" "")
+  | ["dg", "free"] =>
+    match d.dg with
+    | none => (d, "skip")
+    | some b =>
+      let d1 := { d with as := freeS b d.as, dg := none }
+      (d1, outLine d d1 false "ok" "")
+  | ["hm", "new", _name, _key] =>
+    match d.hm with
+    | some _ => (d, "bad-op")
+    | none =>
+      match hmNewA d.as with
+      | (none, s1) => let d1 := { d with as := s1 }; (d1, outLine d d1 true "null" "")
+      | (some h, s1) => let d1 := { d with as := s1, hm := some h }; (d1, outLine d d1 false "ok" "")
+  | ["hm", "run", _data] =>
+    match d.hm with
+    | none => (d, "skip")
+    | some _ => (d, outLine d d false "ok" "")
+  | ["hm", "free"] =>
+    match d.hm with
+    | none => (d, "skip")
+    | some h =>
+      let d1 := { d with as := hmFreeA h d.as, hm := none }
+      (d1, outLine d d1 false "ok" "")
+  | _ => (d, "bad-op")
+
+def main : IO Unit := runDriver ({} : DS) step
